@@ -1177,8 +1177,8 @@ fn run_a(c: &Case) -> Fails {
             Ok(Err(e)) => push(f, &ob("reference-encrypted-opens-in-lopdf"), format!("Algorithm {}: authenticate_owner_password rejects the owner password {:?}: {}; {}", if c.r <= 4 { "7" } else { "12" }, short(eff_owner_str), e, diagnose_a(enc, &eff_owner, &re.fkey, c.r))),
             Ok(Ok(())) => {}
         }
-        let mut pws: Vec<(&str, &[u8], &str)> = vec![(&c.user, &upw, "user")];
-        if eff_owner != upw { pws.push((eff_owner_str, &eff_owner, "owner")); }
+        let mut pws: Vec<(&str, &[u8], &str)> = vec![(c.user.as_str(), upw.as_slice(), "user")];
+        if eff_owner != upw { pws.push((eff_owner_str, eff_owner.as_slice(), "owner")); }
         for (pw, pwb, label) in pws {
             let mut d = enc.clone();
             match lib(|| d.decrypt(pw)) {
@@ -1224,4 +1224,296 @@ fn run_a(c: &Case) -> Fails {
     f
 }
 
-//@@PART6@@
+// ===============================================================================================================
+// 6. direction B: lopdf encrypts, the reference opens
+// ===============================================================================================================
+
+fn lib_state(c: &Case, doc: &Document, fkey: &[u8]) -> Result<EncryptionState, lopdf::Error> {
+    let permissions = Permissions::from_bits_truncate(c.perm as u64);
+    let (owner_password, user_password) = (c.owner.as_str(), c.user.as_str());
+    let mut crypt_filters: BTreeMap<Vec<u8>, Arc<dyn CryptFilter>> = BTreeMap::new();
+    let mut fname = |x: Ciph| -> Vec<u8> {
+        if x == Ciph::Identity {
+            if c.variant == Variant::IdentityInCf { crypt_filters.insert(b"NoEnc".to_vec(), lib_filter(x)); return b"NoEnc".to_vec(); }
+            return b"Identity".to_vec(); // the predefined filter: no CF entry (ISO 32000-1 7.6.5, table 26)
+        }
+        crypt_filters.insert(cf_name(x).to_vec(), lib_filter(x));
+        cf_name(x).to_vec()
+    };
+    let stream_filter = fname(c.stm);
+    let string_filter = fname(c.strf);
+    let v = match c.r {
+        2 => EncryptionVersion::V1 { document: doc, owner_password, user_password, permissions },
+        3 => EncryptionVersion::V2 { document: doc, owner_password, user_password, key_length: c.bits, permissions },
+        4 => EncryptionVersion::V4 { document: doc, encrypt_metadata: c.em, crypt_filters, stream_filter, string_filter, owner_password, user_password, permissions },
+        5 => EncryptionVersion::R5 { encrypt_metadata: c.em, crypt_filters, file_encryption_key: fkey, stream_filter, string_filter, owner_password, user_password, permissions },
+        _ => EncryptionVersion::V5 { encrypt_metadata: c.em, crypt_filters, file_encryption_key: fkey, stream_filter, string_filter, owner_password, user_password, permissions },
+    };
+    EncryptionState::try_from(v)
+}
+
+fn get_int(d: &Dictionary, k: &[u8]) -> Option<i64> { match d.get(k) { Ok(Object::Integer(i)) => Some(*i), _ => None } }
+fn get_str(d: &Dictionary, k: &[u8]) -> Option<Vec<u8>> { match d.get(k) { Ok(Object::String(s, _)) => Some(s.clone()), _ => None } }
+fn get_name(d: &Dictionary, k: &[u8]) -> Option<Vec<u8>> { match d.get(k) { Ok(Object::Name(s)) => Some(s.clone()), _ => None } }
+
+/// the cipher an independent reader selects for a StmF / StrF value (ISO 32000-1 tables 20, 25, 26)
+fn cipher_of(name: Option<&Vec<u8>>, cf: Option<&Dictionary>, v: i64) -> Result<Ciph, String> {
+    let name = match name { None => return Ok(Ciph::Identity), Some(n) => n };
+    if name.as_slice() == b"Identity" {
+        if cf.map(|d| d.get(b"Identity").is_ok()).unwrap_or(false) { return Err("CF redefines the predefined crypt filter /Identity".into()); }
+        return Ok(Ciph::Identity);
+    }
+    let entry = match cf.and_then(|d| d.get(name).ok()) { Some(Object::Dictionary(e)) => e, _ => return Err(format!("crypt filter /{} is not defined in CF", String::from_utf8_lossy(name))) };
+    if let Ok(t) = entry.get(b"Type") { if !matches!(t, Object::Name(n) if n.as_slice() == b"CryptFilter") { return Err(format!("CF /{} has /Type {:?}", String::from_utf8_lossy(name), t)); } }
+    if let Ok(a) = entry.get(b"AuthEvent") { if !matches!(a, Object::Name(n) if n.as_slice() == b"DocOpen") { return Err(format!("CF /{} has /AuthEvent {:?} (the standard security handler authenticates at DocOpen)", String::from_utf8_lossy(name), a)); } }
+    let len = get_int(entry, b"Length");
+    let len_ok = |allowed: &[i64]| len.map(|l| allowed.contains(&l)).unwrap_or(true);
+    match get_name(entry, b"CFM").as_deref() {
+        Some(b"V2") => if v == 4 && len_ok(&[16, 128]) { Ok(Ciph::Rc4) } else { Err(format!("CF /{}: /CFM /V2 with /Length {:?} under V {}", String::from_utf8_lossy(name), len, v)) },
+        Some(b"AESV2") => if v == 4 && len_ok(&[16, 128]) { Ok(Ciph::AesV2) } else { Err(format!("CF /{}: /CFM /AESV2 with /Length {:?} under V {}", String::from_utf8_lossy(name), len, v)) },
+        Some(b"AESV3") => if v == 5 && len_ok(&[32, 256]) { Ok(Ciph::AesV3) } else { Err(format!("CF /{}: /CFM /AESV3 with /Length {:?} under V {}", String::from_utf8_lossy(name), len, v)) },
+        Some(other) => Err(format!("CF /{} has /CFM /{}, which is not one of None, V2, AESV2, AESV3 (ISO 32000 table 25)", String::from_utf8_lossy(name), String::from_utf8_lossy(other))),
+        None => Err(format!("CF /{} has no /CFM (default /None: the security handler would decrypt itself)", String::from_utf8_lossy(name))),
+    }
+}
+
+fn run_b(c: &Case) -> Fails {
+    let mut f: Fails = vec![];
+    let sfx = c.suffix();
+    let ob = |s: &str| format!("{}{}", s, sfx);
+    let mut rng = Rng::new(c.seed);
+    let id0 = rng.bytes(if c.seed % 2 == 0 { 16 } else { 21 });
+    let id1 = rng.bytes(16);
+    let given_key = rng.bytes(32);
+    let (upw, opw) = match (prep_password(c.r, &c.user), prep_password(c.r, &c.owner)) { (Some(u), Some(o)) => (u, o), _ => { push(&mut f, "harness-password-family", "a generated password is outside PDFDocEncoding".into()); return f; } };
+    let eff_owner: Vec<u8> = if c.r <= 4 && opw.is_empty() { upw.clone() } else { opw.clone() };
+    let plain = plain_objects(c.r);
+    let mut doc = Document::with_version("1.7");
+    for (id, o) in &plain { doc.objects.insert(*id, o.clone()); }
+    doc.max_id = plain.iter().map(|x| x.0 .0).max().unwrap_or(0);
+    doc.trailer.set("Root", Object::Reference((1, 0)));
+    doc.trailer.set("Info", Object::Reference((3, 0)));
+    doc.trailer.set("ID", Object::Array(vec![hxs(&id0), hxs(&id1)]));
+    if c.layout == 1 { doc.reference_table.cross_reference_type = XrefType::CrossReferenceStream; }
+
+    let state = match lib(|| lib_state(c, &doc, &given_key)) {
+        Err(p) => { push(&mut f, "no-panic", format!("EncryptionState::try_from panicked: {}", p)); return f; }
+        Ok(Err(e)) => { push(&mut f, &ob("encrypt-ok"), format!("EncryptionState::try_from refuses a configuration of the standard security handler: {}", e)); return f; }
+        Ok(Ok(s)) => s,
+    };
+    let mut enc = doc.clone();
+    match lib(|| enc.encrypt(&state)) {
+        Err(p) => { push(&mut f, "no-panic", format!("encrypt panicked: {}", p)); return f; }
+        Ok(Err(e)) => { push(&mut f, &ob("encrypt-ok"), format!("encrypt failed: {}", e)); return f; }
+        Ok(Ok(())) => {}
+    }
+    // observe the saved file where the loader leaves the ciphertext alone; otherwise the encrypted objects in memory
+    let mut bytes: Vec<u8> = vec![];
+    let mut saver = enc.clone();
+    let loaded: Option<Document> = match lib(|| saver.save_to(&mut bytes)) {
+        Err(p) => { push(&mut f, "no-panic", format!("save_to of the encrypted document panicked: {}", p)); None }
+        Ok(Err(_)) => None,
+        Ok(Ok(())) => match lib(|| Document::load_mem(&bytes)) {
+            Err(p) => { push(&mut f, "no-panic", format!("load_mem of the saved encrypted document panicked: {}", p)); None }
+            Ok(Ok(d)) if d.trailer.get(b"Encrypt").is_ok() => Some(d),
+            _ => None,
+        },
+    };
+    let (src, via): (&Document, &str) = match &loaded { Some(d) => (d, "saved file"), None => (&enc, "document in memory") };
+
+    // --- the encryption dictionary, read the way an independent reader does
+    let ed: Dictionary = match src.trailer.get(b"Encrypt") {
+        Ok(Object::Reference(id)) => match src.objects.get(id) { Some(Object::Dictionary(d)) => d.clone(), other => { push(&mut f, &ob("dict-V-R-Length"), format!("/Encrypt {} {} R is {:?}", id.0, id.1, other.map(|o| o.enum_variant()))); return f; } },
+        Ok(Object::Dictionary(d)) => d.clone(),
+        other => { push(&mut f, &ob("dict-V-R-Length"), format!("trailer /Encrypt is {:?}", other.ok())); return f; }
+    };
+    let (v, r) = (get_int(&ed, b"V"), get_int(&ed, b"R"));
+    let length = get_int(&ed, b"Length");
+    let length_ok = match c.r { 2 => length.is_none() || length == Some(40), 3 => length == Some(c.bits as i64) || (length.is_none() && c.bits == 40), 4 => length.is_none() || length == Some(128), _ => length.is_none() || length == Some(256) };
+    if get_name(&ed, b"Filter").as_deref() != Some(b"Standard") || v != Some(c.v()) || r != Some(c.r as i64) || !length_ok || (ed.get(b"Length").is_ok() && length.is_none()) {
+        push(&mut f, &ob("dict-V-R-Length"), format!("{}: /Filter {:?} /V {:?} /R {:?} /Length {:?}; revision {} with a {}-bit key needs /Filter /Standard /V {} /R {} and /Length {}",
+            via, get_name(&ed, b"Filter").map(|n| String::from_utf8_lossy(&n).to_string()), v, r, ed.get(b"Length").ok(), c.r, c.bits, c.v(), c.r,
+            match c.r { 2 => "absent or 40".to_string(), 3 => format!("{}", c.bits), 4 => "absent or 128".into(), _ => "absent or 256".into() }));
+    }
+    // P: the conforming word, as a signed 32-bit integer (ISO 32000-1 7.6.3.2, table 22)
+    let p_dict = get_int(&ed, b"P");
+    let want_p = c.p();
+    if p_dict != Some(want_p as i64) {
+        let how = match p_dict { Some(x) if x as u32 == want_p as u32 && x != want_p as i64 => " (the low 32 bits agree, but the integer is not the signed 32-bit value)", Some(x) if (x as u32) & 0xFFFF_F0C3 != 0xFFFF_F0C0 => " (reserved bits 1-2 must be 0, 7-8 and 13-32 must be 1)", _ => "" };
+        push(&mut f, &ob("P-word"), format!("{}: /P is {:?}, the conforming permission word for access bits {:#06x} is {}{}", via, ed.get(b"P").ok(), c.perm, want_p, how));
+    }
+    let p_used: i32 = p_dict.map(|x| x as u32 as i32).unwrap_or(want_p);
+    // EncryptMetadata and crypt filters
+    let em_dict = match ed.get(b"EncryptMetadata") { Ok(Object::Boolean(b)) => Some(*b), Ok(_) => None, Err(_) => Some(true) };
+    let (mut stm_c, mut str_c) = (c.stm, c.strf);
+    let mut named: BTreeMap<Vec<u8>, Ciph> = BTreeMap::new();
+    if c.r >= 4 {
+        if em_dict != Some(c.em) { push(&mut f, &ob("dict-crypt-filters"), format!("{}: /EncryptMetadata is {:?} (absent means true), requested {}", via, ed.get(b"EncryptMetadata").ok(), c.em)); }
+        let cf = match ed.get(b"CF") { Ok(Object::Dictionary(d)) => Some(d.clone()), _ => None };
+        for (which, key, want) in [("StmF", &b"StmF"[..], c.stm), ("StrF", &b"StrF"[..], c.strf)] {
+            let name = get_name(&ed, key);
+            match cipher_of(name.as_ref(), cf.as_ref(), c.v()) {
+                Ok(got) => {
+                    if got != want { push(&mut f, &ob("dict-crypt-filters"), format!("{}: /{} /{} selects {} but {} was requested", via, which, name.map(|n| String::from_utf8_lossy(&n).to_string()).unwrap_or_default(), got.s(), want.s())); }
+                    if which == "StmF" { stm_c = got; } else { str_c = got; }
+                }
+                Err(e) => push(&mut f, &ob("dict-crypt-filters"), format!("{}: /{}: {}", via, which, e)),
+            }
+        }
+        if let Some(cf) = &cf { for (k, _) in cf.iter() { if let Ok(x) = cipher_of(Some(k), Some(cf), c.v()) { named.insert(k.clone(), x); } } }
+    } else if ed.get(b"CF").is_ok() || ed.get(b"StmF").is_ok() || ed.get(b"StrF").is_ok() || ed.get(b"EncryptMetadata").is_ok() {
+        // allowed but meaningless below V 4; not a failure
+    }
+    // /ID must not be encrypted
+    match src.trailer.get(b"ID") {
+        Ok(Object::Array(a)) if matches!(a.first(), Some(Object::String(s, _)) if *s == id0) && matches!(a.get(1), Some(Object::String(s, _)) if *s == id1) => {}
+        other => push(&mut f, &ob("id-not-encrypted"), format!("{}: trailer /ID is {:?}, the document had [{} {}]", via, other.ok(), hex(&id0), hex(&id1))),
+    }
+
+    // --- keys and password hashes
+    let o = get_str(&ed, b"O").unwrap_or_default();
+    let u = get_str(&ed, b"U").unwrap_or_default();
+    let lib_key = state.file_encryption_key().to_vec();
+    let fkey: Vec<u8>;
+    if c.r <= 4 {
+        let n = c.n();
+        if o.len() != 32 { push(&mut f, &ob("O-value"), format!("{}: /O has {} bytes instead of 32", via, o.len())); }
+        if u.len() != 32 { push(&mut f, &ob("U-value"), format!("{}: /U has {} bytes instead of 32", via, u.len())); }
+        // Algorithm 3
+        let want_o = alg3(c.r, n, &eff_owner, &upw);
+        let mut o_ok = true;
+        if o != want_o {
+            o_ok = false;
+            let mut why = String::new();
+            if opw.is_empty() && !upw.is_empty() && o == alg3(c.r, n, &[], &upw) {
+                why = " - /O is what Algorithm 3 gives with the 32-byte padding string as owner password, but step (a) says: if there is no owner password, use the user password instead".into();
+                if alg7(c.r, n, &[], &o, &u, p_used, &id0, em_dict.unwrap_or(true)).is_some() { why.push_str("; consequence: the empty password passes Algorithm 7 (owner authentication) and yields the file key although the user password is not empty"); }
+            }
+            push(&mut f, &ob("O-value"), format!("{}: Algorithm 3: /O is {}, the reference computes {} for owner password {:?} (effective {:?}) and user password {:?}{}", via, hex(&o), hex(&want_o), short(&c.owner), short(&String::from_utf8_lossy(&eff_owner)), short(&c.user), why));
+        }
+        // Algorithm 2 and 4/5
+        let key2 = alg2(c.r, n, &upw, &o, p_used, &id0, em_dict.unwrap_or(true));
+        if lib_key != key2 {
+            push(&mut f, &ob("file-key"), format!("{}: Algorithm 2: lopdf's file key is {} ({} bytes), the reference derives {} ({} bytes) from the user password, /O, P = {}, ID[0] = {}{}", via, hex(&lib_key), lib_key.len(), hex(&key2), key2.len(), p_used, hex(&id0),
+                if c.r >= 4 && !em_dict.unwrap_or(true) { ", ffffffff" } else { "" }));
+        }
+        let want_u = if c.r == 2 { alg4(&key2) } else { alg5(&key2, &id0) };
+        let cmp = if c.r == 2 { 32 } else { 16 };
+        if u.len() < cmp || u[..cmp] != want_u[..cmp] {
+            push(&mut f, &ob("U-value"), format!("{}: Algorithm {}: the first {} bytes of /U are {}, the reference computes {}", via, if c.r == 2 { 4 } else { 5 }, cmp, hex(&u[..cmp.min(u.len())]), hex(&want_u[..cmp])));
+        }
+        // Algorithms 6 and 7 on the dictionary as written
+        match alg6(c.r, n, &upw, &o, &u, p_used, &id0, em_dict.unwrap_or(true)) {
+            Some(k) => fkey = k,
+            None => { push(&mut f, &ob("lopdf-encrypted-opens-in-reference"), format!("{}: Algorithm 6: the reference does not accept the user password {:?}", via, short(&c.user))); fkey = lib_key.clone(); }
+        }
+        if o_ok {
+            match alg7(c.r, n, &eff_owner, &o, &u, p_used, &id0, em_dict.unwrap_or(true)) {
+                Some(k) if k == fkey => {}
+                other => push(&mut f, &ob("lopdf-encrypted-opens-in-reference"), format!("{}: Algorithm 7: the owner password {:?} gives {:?} instead of the file key {}", via, short(&c.owner), other.map(|k| hex(&k)), hex(&fkey))),
+            }
+        }
+    } else {
+        let (oe, ue, perms) = (get_str(&ed, b"OE").unwrap_or_default(), get_str(&ed, b"UE").unwrap_or_default(), get_str(&ed, b"Perms").unwrap_or_default());
+        let mut shape_ok = true;
+        if u.len() != 48 || ue.len() != 32 { push(&mut f, &ob("U-value"), format!("{}: /U has {} bytes and /UE {} (48 and 32 required)", via, u.len(), ue.len())); shape_ok = false; }
+        if o.len() != 48 || oe.len() != 32 { push(&mut f, &ob("O-value"), format!("{}: /O has {} bytes and /OE {} (48 and 32 required)", via, o.len(), oe.len())); shape_ok = false; }
+        if lib_key != given_key { push(&mut f, &ob("file-key"), format!("{}: the state holds the file key {} instead of the given {}", via, hex(&lib_key), hex(&given_key))); }
+        fkey = given_key.clone();
+        if shape_ok {
+            let hash_name = if c.r == 6 { "Algorithm 2.B" } else { "SHA-256" };
+            // Algorithm 8 / 11
+            let hu = alg2b(c.r, &upw, &u[32..40], &[]);
+            if hu[..] != u[..32] { push(&mut f, &ob("U-value"), format!("{}: Algorithm 8 (a): /U[0..32] is {}, {} of the user password ({} bytes) and the validation salt {} is {}", via, hex(&u[..32]), hash_name, upw.len(), hex(&u[32..40]), hex(&hu))); }
+            let ku = aes_cbc_dec(&alg2b(c.r, &upw, &u[40..48], &[]), &[0u8; 16], &ue);
+            if ku != given_key { push(&mut f, &ob("file-key"), format!("{}: Algorithm 8 (b) / 2.A: /UE decrypts to {} with the key from the user password and the key salt {}, the file key is {}", via, hex(&ku), hex(&u[40..48]), hex(&given_key))); }
+            // Algorithm 9 / 12
+            let ho = alg2b(c.r, &opw, &o[32..40], &u);
+            if ho[..] != o[..32] { push(&mut f, &ob("O-value"), format!("{}: Algorithm 9 (a): /O[0..32] is {}, {} of the owner password ({} bytes), the validation salt {} and the 48-byte /U is {}", via, hex(&o[..32]), hash_name, opw.len(), hex(&o[32..40]), hex(&ho))); }
+            let ko = aes_cbc_dec(&alg2b(c.r, &opw, &o[40..48], &u), &[0u8; 16], &oe);
+            if ko != given_key { push(&mut f, &ob("file-key"), format!("{}: Algorithm 9 (b) / 2.A: /OE decrypts to {} with the key from the owner password, the key salt {} and /U, the file key is {}", via, hex(&ko), hex(&o[40..48]), hex(&given_key))); }
+            // Algorithm 2.A as a reader runs it
+            for (pw, label) in [(&upw, "user"), (&opw, "owner")] {
+                match alg2a(c.r, pw, &o, &u, &oe, &ue) {
+                    Some((k, _)) if k == given_key => {}
+                    other => push(&mut f, &ob("lopdf-encrypted-opens-in-reference"), format!("{}: Algorithm 2.A: the {} password gives {:?} instead of the file key", via, label, other.map(|(k, w)| format!("{} as {}", hex(&k), w)))),
+                }
+            }
+        }
+        // Algorithm 10 / 13
+        if let Err(e) = alg13(&given_key, &perms, p_used, em_dict.unwrap_or(true)) { push(&mut f, &ob("perms"), format!("{}: Algorithm 10/13: {}", via, e)); }
+    }
+
+    // --- every string and stream
+    let rc = RefCrypt { fkey: &fkey, stm: stm_c, strf: str_c, em: em_dict.unwrap_or(true), named: &named };
+    for (id, po) in &plain {
+        let eo = match src.objects.get(id) { Some(x) => x, None => { push(&mut f, &ob("lopdf-encrypted-opens-in-reference"), format!("{}: object {} {} is missing", via, id.0, id.1)); continue; } };
+        let mut errs = vec![];
+        let dec = rc.decrypt(*id, eo, &format!("{} {}", id.0, id.1), &mut errs);
+        let problem = errs.into_iter().next().or_else(|| diff_obj(po, &dec, &format!("{} {}", id.0, id.1)));
+        if let Some(pr) = problem {
+            let cipher = if pr.starts_with("stream") { match eo { Object::Stream(s) => rc.stream_cipher(s), _ => stm_c } } else { str_c };
+            let mut name = "lopdf-encrypted-opens-in-reference";
+            let mut extra = String::new();
+            if cipher != Ciph::Identity {
+                if let Ok(Ok(k)) = lib(|| lib_filter(cipher).compute_key(&fkey, *id)) {
+                    let want = alg1(&fkey, *id, cipher);
+                    if k != want { name = "object-key"; extra = format!("; Algorithm 1: lopdf's key for object {} {} is {}, the reference's is {} (file key {})", id.0, id.1, hex(&k), hex(&want), hex(&fkey)); }
+                    else { extra = format!("; the object keys agree ({})", hex(&k)); }
+                }
+            } else { extra = "; the dictionary selects /Identity for this item, so it has to be stored unencrypted".into(); }
+            push(&mut f, &ob(name), format!("{}: after decryption by the reference with file key {}: {}{}", via, hex(&fkey), pr, extra));
+            break;
+        }
+    }
+    f
+}
+
+// ===============================================================================================================
+// 7. the run
+// ===============================================================================================================
+
+fn run_case(c: &Case) -> Fails { if c.dir == 'A' { run_a(c) } else { run_b(c) } }
+
+const OBLIGATIONS: u64 = 15;
+
+pub fn run(thorough: bool) -> Report {
+    if let Err(e) = self_test() {
+        eprintln!("c06-interop: SELF-TEST FAILED, the reference primitives are wrong (harness defect, not a finding): {}", e);
+        std::process::exit(3);
+    }
+    let perturbed = !perturb().is_empty();
+    let bound = if perturbed { format!("PERTURBED REFERENCE ({}): sensitivity demonstration only. {}", perturb(), BOUND) } else { BOUND.to_string() };
+    let mut rep = Report::new(&bound, !perturbed);
+    rep.obligations = OBLIGATIONS;
+    let mut cs = cases(thorough);
+    if let Ok(only) = std::env::var("C06_ONLY") { cs.retain(|c| c.describe().contains(&only)); } // debugging aid; never set by the driver
+    let results: Vec<Fails> = cs.par_iter().map(run_case).collect();
+    let stats = std::env::var("C06_STATS").is_ok();
+    let mut agg: BTreeMap<String, (u64, String)> = BTreeMap::new();
+    let step = (cs.len() / 4).max(1);
+    for (i, (c, fails)) in cs.iter().zip(results.into_iter()).enumerate() {
+        rep.case(true);
+        if i % step == step / 2 { rep.sample(c.describe()); }
+        for (obl, det) in fails {
+            if stats { let e = agg.entry(obl.clone()).or_insert((0, format!("{} :: {}", c.describe(), det))); e.0 += 1; }
+            rep.fail(&obl, det, c.to_json(&obl), c.describe());
+        }
+    }
+    if stats { eprintln!("{} cases", cs.len()); for (obl, (k, first)) in &agg { eprintln!("{:6} {} | first: {}", k, obl, first); } }
+    rep
+}
+
+pub fn replay(v: &Value) -> Result<(), String> {
+    if let Err(e) = self_test() {
+        eprintln!("c06-interop: SELF-TEST FAILED (harness defect): {}", e);
+        std::process::exit(3);
+    }
+    let c = Case::from_json(v);
+    let fails = run_case(&c);
+    let want = v["obligation"].as_str().unwrap_or("");
+    match fails.iter().find(|x| want.is_empty() || x.0 == want) {
+        Some((obl, det)) => Err(format!("{}: {} :: {}", obl, c.describe(), det)),
+        None => Ok(()),
+    }
+}
